@@ -15,6 +15,8 @@ PROFILE_SPARSE = gen.Profile(**{**PROFILE.__dict__, "p_nested": 0.8, "max_nested
                                 "p_group": dict(validators=0.1, cond=0.15, unless=0.05, before=0.2, on=0.25, after=0.5,
                                                 enter=0.5, exit=0.3)})
 PROFILE_ASYNC = gen.Profile(**{**PROFILE.__dict__, "p_coro": 0.5, "drivers": ("facade", "loop"), "p_rtc_off": 0.0})
+PROFILE_CHAIN = gen.Profile(**{**PROFILE.__dict__, "p_rtc_off": 0.5, "p_nested": 0.0, "p_raise": 0.0, "p_validator_raise": 0.0,
+                               "p_unknown_event": 0.05, "p_coro": 0.15, "drivers": ("sync", "facade", "loop"), "max_events": 5})
 
 
 def nontrivial(s, a, rt):
@@ -96,3 +98,12 @@ def run(ctx):
     for k in ("evaluations", "distinct_nontrivial", "traces_validated_against_impl", "disagreements", "monitor_failures"):
         ctx.coverage[k] = ctx.coverage.get(k, 0) + cov1.get(k, 0)
     ctx.coverage["distribution_sync"] = cov1.get("distribution")
+    # events used as callbacks (`before="other_event"`): under rtc=False the callback's value — hence a part of the
+    # outer result — is the chained event's own result; under run-to-completion None (model: Act.retSend)
+    cov2 = dict(ctx.coverage)
+    engine_check(ctx, PROFILE_CHAIN, 260, 6000, gen.chain_nontrivial, tag="C14c", mutate=gen.plant_evrefs)
+    ctx.coverage["distribution_chain"] = ctx.coverage.get("distribution")
+    ctx.coverage["chain_scenarios"] = ctx.coverage.get("evaluations", 0)
+    for k in ("evaluations", "distinct_nontrivial", "traces_validated_against_impl", "disagreements", "monitor_failures"):
+        ctx.coverage[k] = ctx.coverage.get(k, 0) + cov2.get(k, 0)
+    ctx.coverage["distribution"] = cov2.get("distribution")
